@@ -536,7 +536,10 @@ def l3d_case(args):
     for t, e in tails.items():
         for i in range(3):
             w["reads"].append(W.read_of("%s%d_bulk" % (t, i), "chr1", [A, B, C, e]))
-    w["reads"].append(W.read_of("shared_cellX", "chr1", [A, B, C], polya=False))
+    # reads over the shared exons only, one per group (they are compatible with all three isoforms / models)
+    w["reads"].append(W.read_of("shared1_cellX", "chr1", [A, B, C], polya=False))
+    w["reads"].append(W.read_of("shared2_bulk", "chr1", [[A[0] + 2, A[1]], B, C], polya=False))
+    w["reads"].append(W.read_of("shared3_cellY", "chr1", [[A[0] + 4, A[1]], B, C], polya=False))
     d = os.path.join(scratch, "c09d_%s" % strategy)
     shutil.rmtree(d, ignore_errors=True)
     paths = syn.materialise(w, d)
@@ -557,6 +560,19 @@ def l3d_case(args):
             continue
         if hc is None or ht is None:
             continue
+        # the counts themselves: every read under its own group
+        share = 0.33 if strategy in ("with_ambiguous", "all") else 0.0
+        exp = {"gene": {("G1", "bulk"): 10.0, ("G1", "cellX"): 1.0, ("G1", "cellY"): 1.0}}.get(level) or \
+            dict([((t, "bulk"), 3.0 + share) for t in tails] + [((t, g_), share) for t in tails for g_ in ("cellX", "cellY") if share])
+        got = {}
+        for f, v in rc_.items():
+            if f.startswith("__"):
+                continue
+            for gname, x in zip(hc[1:], v[0]):
+                if float(x):
+                    got[(f, gname)] = float(x)
+        if got != exp:
+            errs.append(("grouped-counts:%s" % level, "%s grouped counts %s, expected %s" % (level, sorted(got.items()), sorted(exp.items()))))
         for gi, g in enumerate(hc[1:]):
             col = {f: float(v[0][gi]) for f, v in rc_.items() if not f.startswith("__")}
             tot = sum(col.values())
